@@ -286,6 +286,7 @@ type event struct {
 	inlineStart bool
 	inlineEnd   bool
 	wild        bool
+	markup      bool
 }
 
 // Gap between two consecutive atoms of the denoted document.
@@ -303,6 +304,47 @@ type Atom struct {
 	Canon string
 	Gap   Gap  // gap before this atom
 	Wild  bool // any text (script bodies with expressions)
+	// Markup: the atom is a tag, comment or doctype (its Canon is wrapped in \x00 ... \x01); text
+	// atoms may hold any bytes, including those two.
+	Markup bool
+}
+
+// Tag decodes a markup atom: kind is "start", "end", "comment" or "doctype" ("" for text atoms);
+// attrs are the (name, decoded value) pairs of a start tag in source order.
+func (a Atom) Tag() (kind, name string, attrs [][2]string) {
+	if !a.Markup {
+		return "", "", nil
+	}
+	c := strings.TrimSuffix(strings.TrimPrefix(a.Canon, "\x00"), "\x01")
+	switch {
+	case strings.HasPrefix(c, "</"):
+		return "end", strings.TrimSuffix(c[2:], ">"), nil
+	case strings.HasPrefix(c, "<!--"):
+		return "comment", "", nil
+	case strings.HasPrefix(c, "<!doctype"):
+		return "doctype", "", nil
+	}
+	c = strings.TrimSuffix(strings.TrimPrefix(c, "<"), ">")
+	i := strings.IndexByte(c, ' ')
+	if i < 0 {
+		return "start", c, nil
+	}
+	name, rest := c[:i], c[i:]
+	for rest != "" {
+		rest = strings.TrimPrefix(rest, " ")
+		eq := strings.IndexByte(rest, '=')
+		if eq < 0 {
+			break
+		}
+		q, err := strconv.QuotedPrefix(rest[eq+1:])
+		if err != nil {
+			break
+		}
+		v, _ := strconv.Unquote(q)
+		attrs = append(attrs, [2]string{rest[:eq], v})
+		rest = rest[eq+1+len(q):]
+	}
+	return "start", name, attrs
 }
 
 // Denotation of a program for given arguments.
@@ -339,6 +381,11 @@ type evaluator struct {
 
 func (ev *evaluator) atom(canon string, is, ie bool) {
 	ev.evs = append(ev.evs, event{kind: evAtom, canon: canon, inlineStart: is, inlineEnd: ie})
+}
+
+// matom records a markup atom (tag, comment, doctype).
+func (ev *evaluator) matom(canon string, is, ie bool) {
+	ev.evs = append(ev.evs, event{kind: evAtom, canon: canon, inlineStart: is, inlineEnd: ie, markup: true})
 }
 func (ev *evaluator) mark(k evKind) { ev.evs = append(ev.evs, event{kind: k}) }
 
@@ -416,14 +463,14 @@ func (ev *evaluator) node(e *env, n *Node) {
 		var as [][2]string
 		ev.attrs(e, n.Attrs, &as)
 		inl := inlineElems[n.Name]
-		ev.atom(tagCanon(n.Name, as), inl, inl && n.Void)
+		ev.matom(tagCanon(n.Name, as), inl, inl && n.Void)
 		if n.Void {
 			return
 		}
 		ev.mark(evBarrier)
 		ev.list(e, n.Kids, !n.L.Inline && len(n.Kids) > 0)
 		ev.mark(evBarrier)
-		ev.atom("\x00</"+n.Name+">\x01", false, inl)
+		ev.matom("\x00</"+n.Name+">\x01", false, inl)
 	case "if":
 		ev.mark(evJoint)
 		switch {
@@ -504,11 +551,11 @@ func (ev *evaluator) node(e *env, n *Node) {
 	case "call":
 		ev.mark(evBarrier)
 		simple := func(tag, text string) {
-			ev.atom(tagCanon(tag, nil), false, false)
+			ev.matom(tagCanon(tag, nil), false, false)
 			if text != "" {
 				ev.atom(text, false, false)
 			}
-			ev.atom("\x00</"+tag+">\x01", false, false)
+			ev.matom("\x00</"+tag+">\x01", false, false)
 		}
 		switch n.Callee {
 		case "param":
@@ -556,26 +603,26 @@ func (ev *evaluator) node(e *env, n *Node) {
 	case "gocomment":
 		ev.mark(evBarrier)
 	case "htmlcomment":
-		ev.atom("\x00<!--"+n.Text+"-->\x01", false, false)
+		ev.matom("\x00<!--"+n.Text+"-->\x01", false, false)
 		ev.mark(evBarrier)
 	case "doctype":
-		ev.atom("\x00<!doctype html>\x01", false, false)
+		ev.matom("\x00<!doctype html>\x01", false, false)
 		ev.mark(evBarrier)
 	case "style":
-		ev.atom(tagCanon("style", nil), false, false)
+		ev.matom(tagCanon("style", nil), false, false)
 		if n.Text != "" {
 			ev.atom(n.Text, false, false)
 		}
-		ev.atom("\x00</style>\x01", false, false)
+		ev.matom("\x00</style>\x01", false, false)
 		ev.mark(evBarrier)
 	case "script":
-		ev.atom(tagCanon("script", nil), false, false)
+		ev.matom(tagCanon("script", nil), false, false)
 		if strings.Contains(n.Text, "{{") {
 			ev.evs = append(ev.evs, event{kind: evAtom, wild: true}) // a script with Go values: any text
 		} else if n.Text != "" {
 			ev.atom(n.Text, false, false)
 		}
-		ev.atom("\x00</script>\x01", false, false)
+		ev.matom("\x00</script>\x01", false, false)
 		ev.mark(evBarrier)
 	}
 }
@@ -636,7 +683,7 @@ func Eval(f *File, a Args) (d Denotation) {
 					d.MustPairs++
 				}
 			}
-			d.Atoms = append(d.Atoms, Atom{Canon: x.canon, Gap: g, Wild: x.wild})
+			d.Atoms = append(d.Atoms, Atom{Canon: x.canon, Gap: g, Wild: x.wild, Markup: x.markup})
 			prev = x
 			ws, barrier, segWS, curSegWS = false, false, true, false
 		}
